@@ -208,6 +208,11 @@ pub fn check(c: &Case) -> CheckResult {
         _ => false,
     });
     o.class_if(headless, "path-without-leading-moveto");
+    let close_first = flat(&c.nodes).iter().any(|op| match op {
+        Op::Fill(p, _, _) | Op::Stroke(p, _, _, _) | Op::PushClipPath(p) => matches!(p.ops.first(), Some(POp::Z)) && p.ops.len() > 1,
+        _ => false,
+    });
+    o.class_if(close_first, "path-starting-with-close");
     o.class_if(c.nodes.len() >= 15, "history>=15");
     Ok(o)
 }
@@ -248,9 +253,10 @@ fn headless_path(ext: f32) -> BoxedStrategy<PathSpec> {
         (c(), c(), c(), c()).prop_map(|(a, b, x, y)| POp::Q(a, b, x, y)),
         (c(), c(), c(), c(), c(), c()).prop_map(|(a, b, cc, d, x, y)| POp::C(a, b, cc, d, x, y)),
     ];
-    (first, prop::collection::vec((c(), c()).prop_map(|(x, y)| POp::L(x, y)), 1..=3), any::<bool>())
-        .prop_map(|(f, rest, close)| {
-            let mut ops = vec![f];
+    (first, prop::collection::vec((c(), c()).prop_map(|(x, y)| POp::L(x, y)), 1..=3), any::<bool>(), prop::bool::weighted(0.3))
+        .prop_map(|(f, rest, close, close_first)| {
+            // a leading Close (no subpath yet) must be a no-op, not a jump to a point left by an earlier path
+            let mut ops = if close_first { vec![POp::Z, f] } else { vec![f] };
             ops.extend(rest);
             if close {
                 ops.push(POp::Z);
@@ -297,7 +303,7 @@ pub fn property(ctx: &Ctx) -> Property {
         rule: "cases: histories of 4-40 (long part: up to 200) top-level calls on one DrawTarget (1..48 px, widely varying vertical extents): fills, fill_rects, strokes, masks, clear, image draws, clip groups, layer groups, transform changes (incl. singular), paths whose first op is line_to/quad_to/cubic_to, and no-op 'noise' calls (empty paths; paths wholly above/below/left/right of the surface; zero-area and horizontal-only paths; draws under a singular transform; zero/negative/NaN-width strokes; push_clip of off-surface, empty or arbitrary paths immediately popped; rectangles ending exactly at row 0). Oracle: (i) every top-level call is also applied to a fresh DrawTarget holding the same pixels with the transform re-set: pixels must be identical; (ii) the history with all noise calls deleted (noise classified in device space) must show identical pixels at every checkpoint; (iii) the cfg(raqote_verif) hook verif_rasterizer_idle() must hold after every public call in both runs. Non-trivial: >=1 noise call followed by a visible draw, and >=2 visible draws with disjoint vertical extents; distinct by hash of the case.",
         assumptions: vec!["checkpoints are top-level calls (a clip group or a layer group counts as one call); inside groups the idle hook is still checked after every call", "'indefinitely' is sampled by histories of bounded length"],
         parts: vec![part("history", 40_000, 600_000, move || strategy(&c, 40), check), part("long", 600, 20_000, move || strategy(&c2, 200), check)],
-        min_class_fraction: vec![("history", "noise-call", 0.8), ("history", "visible-draw-after-noise", 0.5), ("history", "disjoint-vertical-extents", 0.25), ("history", "path-without-leading-moveto", 0.3), ("history", "layer-group", 0.1)],
+        min_class_fraction: vec![("history", "noise-call", 0.8), ("history", "visible-draw-after-noise", 0.5), ("history", "disjoint-vertical-extents", 0.25), ("history", "path-without-leading-moveto", 0.3), ("history", "path-starting-with-close", 0.1), ("history", "layer-group", 0.1)],
         panic_is_violation: false,
     }
 }
